@@ -645,3 +645,21 @@ package lua
 //@ ensures  result == 1 && top(L) == old(top(L)) + 1 && argsKept(L) && isStr(pushed(L, 0))
 //@ modifies L.reg.array, L.reg.top, L.reg.array[*]
 //@ loop 1 invariant 0 <= i && j == len(bts) - 1 - i && j >= -1 && len(out) == len(bts) && offset(out) == 0 && offset(bts) == 0 && fresh(out)
+
+// ---------------------------------------------------------------------------
+// select(n, ...) (manual §5.1): for a number n the results are the arguments from the n-th on (negative n counts from the
+// end, n beyond the end gives nothing; 0 or a negative n before the first argument is an error): the host function reports
+// HOW MANY of the top-most stack values are its results, and leaves the stack as it is. select('#', ...) pushes the count.
+// ---------------------------------------------------------------------------
+//@ trusted (*LState).CheckTypes [C02]
+//@ assume CheckTypes(n, types...) only inspects argument n and raises a type error when its type is not listed
+//@ raises when true
+//@ modifies nothing
+
+//@ define selIdx(L *LState) int = ite(f2i(num(arg(L, 1))) < 0, nargs(L) + f2i(num(arg(L, 1))), min(f2i(num(arg(L, 1))), nargs(L)))
+//@ func baseSelect [C02]
+//@ requires Inv_gfn(L) && nargs(L) >= 1 && (forall k int :: base(L) <= k && k < top(L) ==> L.reg.array[k] != nil)
+//@ raises when true
+//@ ensures  "numeric": old(isNum(arg(L, 1))) ==> result == old(nargs(L) - selIdx(L)) && old(selIdx(L)) >= 1 && top(L) == old(top(L)) && argsKept(L)
+//@ ensures  "count": old(isStr(arg(L, 1))) ==> result == 1 && top(L) == old(top(L)) + 1 && argsKept(L) && same(pushed(L, 0), old(mkNum(i2f(nargs(L) - 1))))
+//@ modifies L.reg.array, L.reg.top, L.reg.array[*]
